@@ -4,7 +4,7 @@
    exception classes __aexit__ reacts to is re-extracted from the running code
    (gen/Gen_curio.v).  Partial: timers with EQUAL expiry instants (asyncio's heap order) and
    the event loop itself are not modelled. *)
-From AV Require Import Base Gen_curio Timeout TimeoutProofs TimeoutCode TimeoutCodeProofs.
+From AV Require Import Base Gen_curio Timeout TimeoutProofs TimeoutCode TimeoutCodeProofs TimeoutCleanup.
 Local Open Scope Z_scope.
 
 Theorem C11_facts :
@@ -149,6 +149,44 @@ Theorem C11_entry_keeps_inflight_record : forall s d,
   timed_out (set_deadline s d) = if opt_in (timed_out s) (deadlines s) then timed_out s else None.
 Proof. exact entry_keeps_inflight_record. Qed.
 
+(* ---- known finding F21: the clauses below do NOT extend to cleanup code that keeps running after a timeout has fired
+   (finally clauses - outside the program DSL the theorems above quantify over).  Each statement refutes one clause of the
+   property for such a program, given as a history of the translated primitives (proof/TimeoutCleanup.v); the harness runs
+   the same four programs on the implementation on every run and compares the outcomes with these. ---- *)
+
+(* "one still running at its deadline is interrupted then" - refuted for a block entered in a finally clause *)
+Theorem C11_F21_cleanup_block_never_armed_refuted :
+  exists s d w, In d (deadlines s) /\ now s < d /\ d < now s + w /\ ext s = None /\
+                armed s = None /\ fst (await w s) = Ok /\ now (snd (await w s)) = now s + w.
+Proof. exists h1_inner, 12, 50. vm_compute. repeat split; try reflexivity. right; left; reflexivity. Qed.
+
+(* ... and for an enclosing block while an inner block that timed out is still in its finally clause *)
+Theorem C11_F21_enclosing_deadline_unguarded_refuted :
+  exists s d w, In d (deadlines s) /\ now s < d /\ d < now s + w /\ ext s = None /\
+                fst (await w s) = Ok /\ fst h2_outer_exit = Ok /\ log (snd h2_outer_exit) = [(Ok, true); (Ok, false)].
+Proof. exists h2_fired, 20, 50. vm_compute. repeat split; try reflexivity. left; reflexivity. Qed.
+
+(* "an inner timeout that nobody handles surfaces as UncaughtTimeoutError in the enclosing block" - refuted when a
+   timeout block is entered and left in a finally clause on the way *)
+Theorem C11_F21_unhandled_inner_timeout_refuted :
+  fst h3_inner_exit = Exc ETaskTimeout /\ fst h3_outer_exit = Exc ETaskTimeout /\
+  fst (aexit KTimeout 20 (fst h3_inner_exit) (snd h3_inner_exit)) = Exc EUncaught.
+Proof. split; [|split]; [apply unhandled_inner_timeout_record_lost | apply unhandled_inner_timeout_record_lost | exact unhandled_inner_timeout_without_cleanup_block]. Qed.
+
+(* "the block whose deadline passed is the one that reports the timeout" - refuted when its finally clause runs a block
+   that times out itself *)
+Theorem C11_F21_cleanup_block_timeout_refuted :
+  fst h4_outer_exit = Exc ECancelled /\ log (snd h4_outer_exit) = [(Ok, true); (Exc ECancelled, false)].
+Proof. split; apply cleanup_block_timeout_overwrites_record. Qed.
+
+(* the four histories in full *)
+Theorem C11_F21_histories :
+  (now fired_outer = 8 /\ armed h1_inner = None /\ deadlines h1_inner = [8; 12] /\ fst h1_sleep = Ok /\ now (snd h1_sleep) = 58 /\
+   fst (aexit KIgnore 12 Ok (snd h1_sleep)) = Ok /\ log (snd (aexit KIgnore 12 Ok (snd h1_sleep))) = [(Ok, false)]) /\
+  (now h2_fired = 8 /\ armed h2_fired = None /\ deadlines h2_fired = [20; 8] /\ fst h2_cleanup = Ok /\ now (snd h2_cleanup) = 58 /\
+   fst h2_inner_exit = Ok /\ fst h2_outer_exit = Ok /\ log (snd h2_outer_exit) = [(Ok, true); (Ok, false)]).
+Proof. split; [exact cleanup_block_never_armed | exact enclosing_deadline_unguarded_during_cleanup]. Qed.
+
 Print Assumptions C11_facts.
 Print Assumptions C11_early_unaffected.
 Print Assumptions C11_fires_not_earlier.
@@ -167,3 +205,8 @@ Print Assumptions C11_deadline_code_known.
 Print Assumptions C11_set_deadline_from_source.
 Print Assumptions C11_unset_deadline_from_source.
 Print Assumptions C11_entry_keeps_inflight_record.
+Print Assumptions C11_F21_cleanup_block_never_armed_refuted.
+Print Assumptions C11_F21_enclosing_deadline_unguarded_refuted.
+Print Assumptions C11_F21_unhandled_inner_timeout_refuted.
+Print Assumptions C11_F21_cleanup_block_timeout_refuted.
+Print Assumptions C11_F21_histories.
